@@ -79,6 +79,9 @@ class Model:
     self.bpos = symarr(prefix + 'bp', (n, 3))
     self.bquat = np.stack([unit_quat(prefix + 'bq%d' % i) for i in range(n)])
     self.anchor = symarr(prefix + 'an', (n, 3)) if not anchors_zero else asarr(np.zeros((n, 3), dtype=int).tolist())
+    for i, l in enumerate(links):
+      if l['joints'] == ('f',):        # MuJoCo: a free joint has no anchor (jnt_pos = 0)
+        self.anchor[i] = asarr([0, 0, 0])
     self.dofs = []         # (link, kind)
     for i, l in enumerate(links):
       if l['joints'] == ('f',):
